@@ -236,10 +236,17 @@ func runBinary(bin, dir string, env []string, args ...string) (stdout, stderr []
 
 // binTimeout bounds one run of a real binary; a binary that does not exit is reported with
 // code -2 (the property promises an answer under every GOMAXPROCS).
-var binTimeout = 60 * time.Second
+var binTimeout = 30 * time.Second
+
+// binHangs counts timeouts; once a hang is established the remaining runs get a short leash.
+var binHangs int
 
 func runBinaryOnce(bin, dir string, env []string, args ...string) (stdout, stderr []byte, code int) {
-	ctx, cancel := context.WithTimeout(context.Background(), binTimeout)
+	limit := binTimeout
+	if binHangs >= 2 {
+		limit = 3 * time.Second
+	}
+	ctx, cancel := context.WithTimeout(context.Background(), limit)
 	defer cancel()
 	cmd := exec.CommandContext(ctx, bin, args...)
 	cmd.Dir = dir
@@ -248,6 +255,7 @@ func runBinaryOnce(bin, dir string, env []string, args ...string) (stdout, stder
 	cmd.Stdout, cmd.Stderr = &o, &e
 	err := cmd.Run()
 	if ctx.Err() != nil {
+		binHangs++
 		return o.Bytes(), e.Bytes(), -2
 	}
 	if err != nil {
